@@ -61,7 +61,7 @@ RULE = ('type-directed: a case is a HISTORY in one (forked, fresh) process: 1-3 
         'bucket keys), lambdas incl. SKIP-producing ones, T-expression chains with + * | % on ints, strings, lists, '
         'tuples and dicts (key and leaf computed from the same mutable field), the class objects type / str / bool / '
         'int; leaf = [f] / First / Max / Min / Avg / Sum(f) / Count / Flatten(f) / Merge(f) / Sample(k) / Sum(Sum()) '
-        '/ Sum(Count()) / a bare function (SKIP-producing ones included) / a nested Group / an aggregator CLASS used '
+        '/ Sum(Count()) / Sum / Flatten / Merge whose subspec is a Group (with Fold-family leaves of its own) / a bare function (SKIP-producing ones included) / a nested Group / an aggregator CLASS used '
         'without instantiation (static or class method agg) / an aggregator class without parentheses; Limit(n) at '
         'the top and below key levels, with and without subspec, n = 0, negative, float.  Observed per evaluation: the '
         'result, the target afterwards (values) and whether every edge of its object graph still points to the same '
@@ -367,6 +367,12 @@ def build_spec(j, objs, pool=None):
             objs[j['sub']['id']] = o.subspec
         else:
             o = Limit(j['n'], build_spec(j['sub'], objs, pool))
+        objs[j['oid']] = o
+        return o
+    if k == 'fold_group':
+        # Sum / Flatten / Merge whose SUBSPEC is a Group object (of the pool)
+        inner = build_spec({'k': 'nested', 'gid': j['gid'], 'g': j['g']}, objs, pool)
+        o = {'sum': Sum, 'flatten': Flatten, 'merge': Merge}[j['fold']](inner)
         objs[j['oid']] = o
         return o
     if k in ('nested', 'group_obj'):
@@ -945,8 +951,8 @@ def deepest_sub_holder(s):
     return d
 
 
-STREAMS = ['main', 'toplimit', 'mutate', 'h1', 'h2', 'hist', 'tarith', 'quiet', 'sgroup']
-WEIGHTS = [0.36, 0.08, 0.11, 0.10, 0.08, 0.10, 0.09, 0.04, 0.04]
+STREAMS = ['main', 'toplimit', 'mutate', 'h1', 'h2', 'hist', 'tarith', 'quiet', 'sgroup', 'foldgroup']
+WEIGHTS = [0.34, 0.08, 0.10, 0.10, 0.08, 0.09, 0.09, 0.04, 0.03, 0.05]
 
 
 def gen_shared_group(rng):
@@ -975,6 +981,59 @@ def gen_shared_group(rng):
     return case
 
 
+def gen_fold_group(rng):
+    """a Group nested as the SUBSPEC of a Fold-family leaf (Sum / Flatten / Merge) of an outer Group: every
+    Fold-family leaf x inner Group shapes (Fold-family leaves of their own included), at the top and below key
+    levels; the inner Group object is also evaluated itself, before and after"""
+    kind = rng.choice(['sum', 'flatten', 'merge'])
+    ci = Ctr(500)
+    deep = False
+
+    def agg(a):
+        return {'k': 'agg', 'oid': ci.next(), 'a': a}
+    if kind == 'sum':        # the inner result is a number
+        inner = rng.choice([lambda: agg({'agg': 'count'}), lambda: agg({'agg': 'sum'}), lambda: agg({'agg': 'sum', 'f': fn('mod', n=3)}),
+                            lambda: agg({'agg': 'max'}), lambda: agg({'agg': 'cls_count'}), lambda: agg({'agg': 'avg'}),
+                            lambda: {'k': 'limit', 'oid': ci.next(), 'n': 9, 'sub': agg({'agg': 'count'})}])()
+    elif kind == 'merge':    # … a dict
+        lf = rng.choice([lambda: agg({'agg': 'sum'}), lambda: agg({'agg': 'count'}), lambda: agg({'agg': 'max'}),
+                         lambda: {'k': 'list', 'id': ci.next(), 'f': fn('ident')}, lambda: agg({'agg': 'sum', 'f': fn('mod', n=3)})])()
+        inner = mk_dict(ci, rng.choice([fn('mod', n=2), fn('mod', n=3), cls('bool'), fn('key_skip', n=2)]), lf)
+    else:                    # … a list
+        c = rng.random()
+        if c < 0.45:
+            deep = True      # items are lists of lists: Flatten(Group(Flatten()))
+            inner = agg(rng.choice([{'agg': 'flatten'}, {'agg': 'flatten', 'f': fn('ident')}]))
+        elif c < 0.8:
+            inner = {'k': 'list', 'id': ci.next(), 'f': rng.choice([fn('ident'), fn('mod', n=2), fn('skip_odd')])}
+        else:
+            inner = agg({'agg': 'sample', 'size': 2, 'tbl': []})
+    co = Ctr()
+    leaf = {'k': 'fold_group', 'oid': co.next(), 'fold': kind, 'gid': 1, 'g': inner}
+    spec = leaf
+    for _ in range(rng.choice([0, 1, 1, 2])):
+        spec = mk_dict(co, rng.choice([fn('len'), cls('type'), cls('bool'), fn('len')]), spec)
+    if rng.random() < 0.2:
+        spec = {'k': 'limit', 'oid': co.next(), 'n': rng.choice([2, 3, 9]), 'sub': spec}
+
+    def batch():
+        n = rng.choice([1, 2, 3, 4, 2, 3, 0])
+        if deep:
+            return jv([[rng.randint(0, 9) for _ in range(rng.choice([0, 1, 2]))] for _ in range(n)])
+        xs = [rng.randint(0, 9) for _ in range(n)]
+        return jv(xs if rng.random() < 0.8 else tuple(xs))
+    batches = [batch() for _ in range(rng.choice([0, 1, 2, 3, 4, 6]))]
+    specs = [spec, {'k': 'group_obj', 'gid': 1, 'g': json.loads(json.dumps(inner))}]
+    own = [b for b in batches if 'l' in b] or [jv([1, 2, 3])]
+    targets = [batches, json.loads(json.dumps(rng.choice(own)['l']))]
+    evals = rng.choice([[[0, 0]], [[1, 1], [0, 0], [1, 1]], [[0, 0], [1, 1], [0, 0]], [[0, 0], [0, 0]]])
+    tbl = [rng.randint(0, 20) for _ in range(3)]
+    case = {'specs': specs, 'shared': [], 'targets': targets, 'evals': evals, 'rng': tbl, 'stream': 'foldgroup'}
+    for sp in specs:
+        set_tbl(sp, tbl)
+    return case
+
+
 def limits_of(s):
     out = []
     while True:
@@ -982,7 +1041,7 @@ def limits_of(s):
             out.append(s)
         if s['k'] in ('dict', 'limit'):
             s = s['sub']
-        elif s['k'] in ('nested', 'group_obj'):
+        elif s['k'] in ('nested', 'group_obj', 'fold_group'):
             s = s['g']
         else:
             return out
@@ -1043,6 +1102,8 @@ def gen_case(rng, tier, stream=None):
     st = stream or rng.choices(STREAMS, WEIGHTS)[0]
     if st == 'sgroup':
         return gen_shared_group(rng)
+    if st == 'foldgroup':
+        return gen_fold_group(rng)
     if fam == 'num' and st in ('tarith', 'h2', 'quiet', 'mutate'):
         fam = 'int'
     if st == 'tarith' and fam == 'int' and rng.random() < 0.8:
@@ -1311,6 +1372,20 @@ def corpus():
     out.append({'specs': [{'k': 'dict', 'id': 0, 'kid': 1, 'key': fn('mod', n=2), 'sub': {'k': 'list', 'id': 2, 'f': fn('ident')}}],
                 'shared': [], 'targets': [[jv(x) for x in range(10)]], 'tkinds': ['range'], 'evals': [[0, 0], [0, 0]],
                 'stream': 'corpus'})
+    # a Group as the SUBSPEC of a Fold-family leaf of an outer Group (the CUR_AGG tripwire is reset by the inner
+    # Group.glomit): Group({len: Merge(per_batch)}), Group(Sum(Group(Count()))), Group(Flatten(Group(Flatten())))
+    per_batch = {'k': 'dict', 'id': 501, 'kid': 502, 'key': fn('mod', n=2), 'sub': {'k': 'agg', 'oid': 500, 'a': {'agg': 'sum'}}}
+    batches = [jv([1, 2, 3]), jv([4, 5]), jv([6, 8, 10])]
+    out.append({'specs': [{'k': 'dict', 'id': 0, 'kid': 1, 'key': fn('len'),
+                           'sub': {'k': 'fold_group', 'oid': 2, 'fold': 'merge', 'gid': 1, 'g': per_batch}},
+                          {'k': 'group_obj', 'gid': 1, 'g': per_batch}],
+                'shared': [], 'targets': [batches, [jv(1), jv(2), jv(3)]], 'evals': [[1, 1], [0, 0], [1, 1]],
+                'stream': 'corpus'})
+    out.append({'specs': [{'k': 'fold_group', 'oid': 2, 'fold': 'sum', 'gid': 1, 'g': {'k': 'agg', 'oid': 500, 'a': {'agg': 'count'}}},
+                          {'k': 'fold_group', 'oid': 2, 'fold': 'flatten', 'gid': 2,
+                           'g': {'k': 'agg', 'oid': 600, 'a': {'agg': 'flatten'}}}],
+                'shared': [], 'targets': [batches, [jv([[1], [2]]), jv([[3]]), jv([[4]]), jv([[5], [6]])]],
+                'evals': [[0, 0], [1, 1]], 'stream': 'corpus'})
     # ONE Group object nested in two specs and evaluated itself
     inner = {'k': 'agg', 'oid': 500, 'a': {'agg': 'sum'}}
     out.append({'specs': [{'k': 'dict', 'id': 0, 'kid': 1, 'key': fn('len'), 'sub': {'k': 'nested', 'gid': 1, 'g': inner}},
@@ -1362,7 +1437,7 @@ def known_features(s, below=False):
         return below and s['a']['agg'] == 'first'
     if k in ('list', 'fn'):
         return below and s['f']['fn'] == 'stop_at'
-    if k in ('nested', 'group_obj'):
+    if k in ('nested', 'group_obj', 'fold_group'):
         return known_features(s['g'], False)
     return False
 
@@ -1382,7 +1457,7 @@ def strip_features(s, below=False):
         s['a'] = {'agg': 'count'}
     elif k in ('list', 'fn') and below and s['f']['fn'] == 'stop_at':
         s['f'] = fn('ident')
-    elif k in ('nested', 'group_obj'):
+    elif k in ('nested', 'group_obj', 'fold_group'):
         s['g'] = strip_features(s['g'], False)
     return s
 
@@ -1435,8 +1510,8 @@ def shrink(case):
             yield c
     # fewer items
     for i, r in enumerate(targets):
-        if kinds[i] in ('range', 'set', 'dict'):
-            continue
+        if kinds[i] in ('range', 'set', 'dict') or len(r) <= 1:
+            continue        # (never down to NO items: that is the known deviation empty_or_limit0, not this failure)
         for j in range(len(r)):
             c = dict(base); c['targets'] = targets[:i] + [r[:j] + r[j + 1:]] + targets[i + 1:]
             yield c
